@@ -332,12 +332,21 @@ func (cap *commandArgParser) parseEachInput(args redisArgs, input ...respValue) 
 				}
 			}
 
-			if pms != PARSE_SINGLE_VALUE {
-				foundMultiple = true
+			// only an argument that may repeat stays open; a plain value or a
+			// one-of token completes its argument, and the next one must be
+			// present unless it is optional
+			foundMultiple = (pms == PARSE_MULTI_ONE_OF_TOKEN || pms == PARSE_MULTI_VALUE)
 
+			if pms != PARSE_SINGLE_VALUE {
 				// check recursively if multiple arguments stop here
 				if apos+1 < len(args) {
 					rightVals, testLength, subValid := cap.parseEachInput(args[apos+1:], input[ipos:]...)
+					if subValid && pms == PARSE_ONE_OF_TOKEN && !args[apos].Optional && !args[apos+1].Multiple {
+						// after a one-of token apos already points at the next
+						// argument, so this attempt left it out; that is only
+						// tolerable when a repeating argument takes its input
+						subValid = false
+					}
 					if subValid {
 						ipos += testLength
 						for _, k := range rightVals.order {
